@@ -97,6 +97,7 @@ type world struct {
 	names     []string
 	pre       [][]byte               // htlc preimages used
 	made      map[string][]madeEntry // accepted calls per contract.method, to aim later calls at existing entries
+	wedge     bool                   // reproducer of the contract-sender refund finding
 	locks     bool                   // C10 mode: backing + payout oracles, sentinel/pillar models
 	paidOut   map[string]bool        // entries already paid out (never twice)
 	fusedBase map[types.Address]*big.Int
@@ -236,14 +237,24 @@ func (w *world) receiveOne(c *contractDef, s *nom.AccountBlock) {
 	d := blockDetail(s)
 	if pv != nil {
 		d["panic"] = fmt.Sprint(pv)
-		out.Oracle(false, "receive-panicked", d)
+		if types.IsEmbeddedAddress(s.Address) && s.Amount.Sign() > 0 {
+			// the call was sent by a contract and carries value: its failure needs a refund to that contract, which
+			// applySend rejects (no method for empty data); GenerateAutoReceive then passes a nil block to the verifier
+			out.Oracle(false, "refund-to-contract-sender-fails", d)
+		} else {
+			out.Oracle(false, "receive-panicked", d)
+		}
 		w.dead = true
 		return
 	}
 	out.Oracle(true, "receive-panicked", nil)
 	if err != nil || exec == nil || exec.Transaction == nil {
 		d["err"] = fmt.Sprint(err)
-		out.Oracle(false, "receive-internal-error", d)
+		if types.IsEmbeddedAddress(s.Address) && s.Amount.Sign() > 0 {
+			out.Oracle(false, "refund-to-contract-sender-fails", d)
+		} else {
+			out.Oracle(false, "receive-internal-error", d)
+		}
 		w.dead = true
 		return
 	}
